@@ -217,3 +217,456 @@ Proof.
   - apply (acc_delete_out _ _ _ _ t); auto.
   - apply (acc_delete_out _ _ _ _ t); auto. rewrite Hf. reflexivity.
 Qed.
+
+(* ---------- NodeInfo ---------- *)
+
+Definition on_n (n : positive) (t : task) : bool :=
+  bool_decide (t_node t = Some n) && negb (terminated (t_status t)).
+Definition is_st (s : status) (t : task) : bool := bool_decide (t_status t = s).
+Definition f_used (n : positive) (t : task) : bool := on_n n t && negb (is_st Pipelined t).
+Definition f_rel (n : positive) (t : task) : bool := on_n n t && is_st Releasing t.
+Definition f_pip (n : positive) (t : task) : bool := on_n n t && is_st Pipelined t.
+
+Record Ledger (T : gmap positive task) (n : positive) (N : node) : Prop := mkLedger {
+  lg_idle_sc : sc (n_idle N) <> None;
+  lg_used : acc_ok (n_used N) (f_used n) T;
+  lg_rel : acc_ok (n_releasing N) (f_rel n) T;
+  lg_pip : acc_ok (n_pipelined N) (f_pip n) T;
+  lg_idle : forall d, amt (n_idle N) d = amt (n_alloc N) d - tsum (f_used n) T d;
+}.
+
+Record NodeRep (T : gmap positive task) (n : positive) (N : node) : Prop := mkNodeRep {
+  nr_id : n_id N = n;
+  nr_tasks : n_tasks N = filter (fun kv => on_n n (snd kv) = true) T;
+  nr_ledger : n_has_node N = true -> Ledger T n N;
+}.
+
+Lemma set_node_same t n : t_node t = Some n -> set_node t (Some n) = t.
+Proof. destruct t; simpl; intros ->; reflexivity. Qed.
+
+Lemma ledger_insert_out T n N i t :
+  T !! i = None -> on_n n t = false -> Ledger T n N -> Ledger (<[i := t]> T) n N.
+Proof.
+  intros Hn Hf [H1 H2 H3 H4 H5]. split; [exact H1| | | |].
+  - apply acc_insert_out; auto. unfold f_used. rewrite Hf. reflexivity.
+  - apply acc_insert_out; auto. unfold f_rel. rewrite Hf. reflexivity.
+  - apply acc_insert_out; auto. unfold f_pip. rewrite Hf. reflexivity.
+  - intros d. rewrite H5, tsum_insert by exact Hn. unfold f_used. rewrite Hf. simpl. lia.
+Qed.
+
+Lemma ledger_delete_out T n N i t :
+  T !! i = Some t -> on_n n t = false -> Ledger T n N -> Ledger (delete i T) n N.
+Proof.
+  intros Hs Hf [H1 H2 H3 H4 H5]. split; [exact H1| | | |].
+  - apply (acc_delete_out _ _ _ _ t); auto. unfold f_used. rewrite Hf. reflexivity.
+  - apply (acc_delete_out _ _ _ _ t); auto. unfold f_rel. rewrite Hf. reflexivity.
+  - apply (acc_delete_out _ _ _ _ t); auto. unfold f_pip. rewrite Hf. reflexivity.
+  - intros d. rewrite H5, (tsum_delete (f_used n) T i t d Hs). unfold f_used. rewrite Hf. simpl. lia.
+Qed.
+
+Lemma node_insert_other T n N i t :
+  NodeRep T n N -> T !! i = None -> on_n n t = false -> NodeRep (<[i := t]> T) n N.
+Proof.
+  intros [Hid Hts Hl] Hn Hf. split; [exact Hid| |].
+  - rewrite Hts. symmetry. apply map_filter_insert_not'; cbn [snd fst].
+    + rewrite Hf. discriminate.
+    + intros y Hy. congruence.
+  - intros Hh. apply ledger_insert_out; auto.
+Qed.
+
+Lemma node_delete_other T n N i t :
+  NodeRep T n N -> T !! i = Some t -> on_n n t = false -> NodeRep (delete i T) n N.
+Proof.
+  intros [Hid Hts Hl] Hs Hf. split; [exact Hid| |].
+  - rewrite Hts, map_filter_delete. symmetry. apply delete_notin.
+    apply map_filter_lookup_None. right. intros x Hx. cbn [snd fst]. rewrite Hs in Hx. injection Hx as <-. rewrite Hf. discriminate.
+  - intros Hh. eapply ledger_delete_out; eauto.
+Qed.
+
+Lemma node_rep_placeholder n : NodeRep ∅ n (placeholder n).
+Proof. split; [reflexivity| |discriminate]. simpl. rewrite map_filter_empty. reflexivity. Qed.
+
+Section WithEps.
+Variable eps : Z.
+
+(* the three ways a task counts in a node's ledger *)
+Lemma ledger_in T n N i t idle used rel pip ts :
+  T !! i = None -> on_n n t = true -> task_wf t -> Ledger T n N ->
+  (idle, used, rel, pip) =
+    (if is_st Pipelined t then (n_idle N, n_used N, n_releasing N, add (n_pipelined N) (t_req t))
+     else if is_st Releasing t then (sub (n_idle N) (t_req t), add (n_used N) (t_req t), add (n_releasing N) (t_req t), n_pipelined N)
+     else (sub (n_idle N) (t_req t), add (n_used N) (t_req t), n_releasing N, n_pipelined N)) ->
+  Ledger (<[i := t]> T) n (node_with N idle used rel pip ts).
+Proof.
+  intros Hn Hon Hw [H1 H2 H3 H4 H5] He.
+  destruct (is_st Pipelined t) eqn:Hp; [|destruct (is_st Releasing t) eqn:Hr]; injection He as -> -> -> ->;
+    split; simpl; try (apply acc_insert_in; auto; unfold f_used, f_rel, f_pip; rewrite Hon, ?Hp, ?Hr; reflexivity);
+    try (apply acc_insert_out; auto; unfold f_used, f_rel, f_pip; rewrite Hon, ?Hp, ?Hr; reflexivity);
+    try (apply sc_sub_keep; exact H1); try exact H1.
+  - unfold is_st in Hp. rewrite bool_decide_eq_true in Hp. apply acc_insert_out; auto.
+    unfold f_rel, is_st. rewrite Hon, Hp. reflexivity.
+  - intros d. rewrite H5, tsum_insert by exact Hn. unfold f_used. rewrite Hon, Hp. simpl. lia.
+  - intros d. rewrite amt_sub by (intros Hx; contradiction). rewrite H5, tsum_insert by exact Hn.
+    unfold f_used. rewrite Hon, Hp. simpl. lia.
+  - intros d. rewrite amt_sub by (intros Hx; contradiction). rewrite H5, tsum_insert by exact Hn.
+    unfold f_used. rewrite Hon, Hp. simpl. lia.
+Qed.
+
+Lemma node_add_rep T n N t N' t' :
+  NodeRep T n N -> T !! t_id t = None -> t_node t = Some n -> terminated (t_status t) = false -> task_wf t ->
+  node_add eps N t = inl (N', t') ->
+  NodeRep (<[t_id t := t]> T) n N' /\ t' = t /\ n_has_node N' = n_has_node N /\ n_alloc N' = n_alloc N.
+Proof.
+  intros [Hid Hts Hl] Hn Hnode Hterm Hw.
+  assert (Hon : on_n n t = true) by (unfold on_n; rewrite Hterm, bool_decide_eq_true_2 by exact Hnode; reflexivity).
+  assert (Hts' : <[t_id t := t]> (n_tasks N) = filter (fun kv => on_n n (snd kv) = true) (<[t_id t := t]> T)).
+  { rewrite Hts. symmetry. apply map_filter_insert_True. exact Hon. }
+  unfold node_add. rewrite Hid.
+  rewrite bool_decide_eq_false_2 by (rewrite Hnode; intros [_ H]; congruence).
+  rewrite bool_decide_eq_false_2.
+  2:{ rewrite Hts. intros [x Hx]. apply map_filter_lookup_Some in Hx. destruct Hx as [Hx _]. congruence. }
+  rewrite (set_node_same t n Hnode).
+  destruct (n_has_node N) eqn:Hh; simpl.
+  - specialize (Hl eq_refl).
+    assert (Hgen : forall idle used rel pip,
+      (idle, used, rel, pip) =
+        (if is_st Pipelined t then (n_idle N, n_used N, n_releasing N, add (n_pipelined N) (t_req t))
+         else if is_st Releasing t then (sub (n_idle N) (t_req t), add (n_used N) (t_req t), add (n_releasing N) (t_req t), n_pipelined N)
+         else (sub (n_idle N) (t_req t), add (n_used N) (t_req t), n_releasing N, n_pipelined N)) ->
+      @inl (node * task) add_err (node_with N idle used rel pip (<[t_id t := t]> (n_tasks N)), t) = inl (N', t') ->
+      NodeRep (<[t_id t := t]> T) n N' /\ t' = t /\ n_has_node N' = true /\ n_alloc N' = n_alloc N).
+    { intros idle used rel pip He Hi. injection Hi as <- <-. split; [|auto].
+      split; [exact Hid|exact Hts'|]. intros _. eapply ledger_in; eauto. }
+    unfold is_st in Hgen.
+    destruct (t_status t) eqn:Hst; try (apply Hgen; reflexivity).
+    destruct (less_equal_names eps (t_req t) (n_idle N) DZero); [apply Hgen; reflexivity|discriminate].
+  - intros Hi. injection Hi as <- <-. split; [|auto]. split; [exact Hid|exact Hts'|].
+    simpl. rewrite Hh. discriminate.
+Qed.
+
+Lemma node_add_ok T n N t :
+  NodeRep T n N -> T !! t_id t = None -> t_node t = Some n -> t_status t <> Binding ->
+  exists N', node_add eps N t = inl (N', t).
+Proof.
+  intros [Hid Hts Hl] Hn Hnode Hb.
+  unfold node_add. rewrite Hid.
+  rewrite bool_decide_eq_false_2 by (rewrite Hnode; intros [_ H]; congruence).
+  rewrite bool_decide_eq_false_2.
+  2:{ rewrite Hts. intros [x Hx]. apply map_filter_lookup_Some in Hx. destruct Hx as [Hx _]. congruence. }
+  rewrite (set_node_same t n Hnode).
+  destruct (n_has_node N); simpl; [|eauto].
+  destruct (t_status t); eauto. contradiction.
+Qed.
+
+Lemma ledger_out T n N i t :
+  T !! i = Some t -> on_n n t = true -> Ledger T n N ->
+  Ledger (delete i T) n
+    (if is_st Pipelined t then node_with N (n_idle N) (n_used N) (n_releasing N) (sub (n_pipelined N) (t_req t)) (delete i (n_tasks N))
+     else if is_st Releasing t then node_with N (add (n_idle N) (t_req t)) (sub (n_used N) (t_req t)) (sub (n_releasing N) (t_req t)) (n_pipelined N) (delete i (n_tasks N))
+     else node_with N (add (n_idle N) (t_req t)) (sub (n_used N) (t_req t)) (n_releasing N) (n_pipelined N) (delete i (n_tasks N))).
+Proof.
+  intros Hs Hon [H1 H2 H3 H4 H5].
+  destruct (is_st Pipelined t) eqn:Hp; [|destruct (is_st Releasing t) eqn:Hr];
+    split; simpl; try (apply acc_delete_in; auto; unfold f_used, f_rel, f_pip; rewrite Hon, ?Hp, ?Hr; reflexivity);
+    try (apply (acc_delete_out _ _ _ _ t); auto; unfold f_used, f_rel, f_pip; rewrite Hon, ?Hp, ?Hr; reflexivity);
+    try (apply sc_add_keep; exact H1); try exact H1.
+  - unfold is_st in Hp. rewrite bool_decide_eq_true in Hp. apply (acc_delete_out _ _ _ _ t); auto.
+    unfold f_rel, is_st. rewrite Hon, Hp. reflexivity.
+  - intros d. rewrite H5, (tsum_delete (f_used n) T i t d Hs). unfold f_used. rewrite Hon, Hp. simpl. lia.
+  - intros d. rewrite amt_add, H5, (tsum_delete (f_used n) T i t d Hs). unfold f_used. rewrite Hon, Hp. simpl. lia.
+  - intros d. rewrite amt_add, H5, (tsum_delete (f_used n) T i t d Hs). unfold f_used. rewrite Hon, Hp. simpl. lia.
+Qed.
+
+Lemma node_remove_rep T n N i t :
+  NodeRep T n N -> T !! i = Some t -> on_n n t = true ->
+  NodeRep (delete i T) n (node_remove N i) /\
+  n_has_node (node_remove N i) = n_has_node N /\ n_alloc (node_remove N i) = n_alloc N.
+Proof.
+  intros [Hid Hts Hl] Hs Hon.
+  assert (Hc : n_tasks N !! i = Some t).
+  { rewrite Hts. apply map_filter_lookup_Some. auto. }
+  assert (Hts' : delete i (n_tasks N) = filter (fun kv => on_n n (snd kv) = true) (delete i T)).
+  { rewrite Hts. symmetry. apply map_filter_delete. }
+  unfold node_remove. rewrite Hc.
+  destruct (n_has_node N) eqn:Hh; simpl.
+  - specialize (Hl eq_refl). pose proof (ledger_out T n N i t Hs Hon Hl) as HL. unfold is_st in HL.
+    destruct (t_status t) eqn:Hst; simpl in HL;
+      (split; [split; [exact Hid|exact Hts'|intros _; exact HL]|auto]).
+  - split; [|auto]. split; [exact Hid|exact Hts'|]. simpl. rewrite Hh. discriminate.
+Qed.
+
+End WithEps.
+
+(* ---------- the cache represents its own task table ---------- *)
+
+(* CacheInv: every job / node entry is the ledger of the tasks that name it, and
+   an entry exists for every task that names a job, resp. sits on a node *)
+Record Rep (c : cache) : Prop := mkRep {
+  rp_wf : forall i t, c_heap c !! i = Some t -> t_id t = i /\ task_wf t;
+  rp_nojob : c_jobs c !! no_job = None;
+  rp_jobs : forall j cj, c_jobs c !! j = Some cj -> JobRep (c_heap c) j (cj_job cj);
+  rp_jobs_ex : forall i t, c_heap c !! i = Some t -> t_job t <> no_job -> is_Some (c_jobs c !! t_job t);
+  rp_nodes : forall n N, c_nodes c !! n = Some N -> NodeRep (c_heap c) n N;
+  rp_nodes_ex : forall i t n, c_heap c !! i = Some t -> on_n n t = true -> is_Some (c_nodes c !! n);
+}.
+
+Definition jmeta (cj : cjob) : bool * Z * Z * Z := (cj_pg cj, cj_pguid cj, cj_queue cj, j_min (cj_job cj)).
+Definition nmeta (N : node) : bool * res := (n_has_node N, n_alloc N).
+
+(* entries keep their object-level attributes; new entries have no object yet *)
+Definition jobs_ext (a b : gmap positive cjob) : Prop :=
+  forall j, match a !! j with
+            | Some cj => exists cj', b !! j = Some cj' /\ jmeta cj' = jmeta cj
+            | None => forall cj', b !! j = Some cj' -> cj_pg cj' = false
+            end.
+Definition nodes_ext (a b : gmap positive node) : Prop :=
+  forall n, match a !! n with
+            | Some N => exists N', b !! n = Some N' /\ nmeta N' = nmeta N
+            | None => forall N', b !! n = Some N' -> n_has_node N' = false
+            end.
+
+Lemma jobs_ext_refl a : jobs_ext a a.
+Proof. intros j. destruct (a !! j) eqn:E; [eauto|]. intros cj' H. congruence. Qed.
+Lemma nodes_ext_refl a : nodes_ext a a.
+Proof. intros j. destruct (a !! j) eqn:E; [eauto|]. intros cj' H. congruence. Qed.
+
+Lemma jobs_ext_trans a b c : jobs_ext a b -> jobs_ext b c -> jobs_ext a c.
+Proof.
+  intros H1 H2 j. specialize (H1 j). specialize (H2 j). destruct (a !! j) eqn:Ea.
+  - destruct H1 as (cj' & Hb & Hm). rewrite Hb in H2. destruct H2 as (cj'' & Hc & Hm'). exists cj''. split; [exact Hc|congruence].
+  - destruct (b !! j) eqn:Eb.
+    + destruct H2 as (cj'' & Hc & Hm'). intros x Hx. rewrite Hc in Hx. injection Hx as <-.
+      specialize (H1 c0 eq_refl). unfold jmeta in Hm'. congruence.
+    + exact H2.
+Qed.
+Lemma nodes_ext_trans a b c : nodes_ext a b -> nodes_ext b c -> nodes_ext a c.
+Proof.
+  intros H1 H2 j. specialize (H1 j). specialize (H2 j). destruct (a !! j) eqn:Ea.
+  - destruct H1 as (cj' & Hb & Hm). rewrite Hb in H2. destruct H2 as (cj'' & Hc & Hm'). exists cj''. split; [exact Hc|congruence].
+  - destruct (b !! j) eqn:Eb.
+    + destruct H2 as (cj'' & Hc & Hm'). intros x Hx. rewrite Hc in Hx. injection Hx as <-.
+      specialize (H1 n eq_refl). unfold nmeta in Hm'. congruence.
+    + exact H2.
+Qed.
+
+Lemma jobs_ext_insert a j cj' :
+  match a !! j with Some cj => jmeta cj' = jmeta cj | None => cj_pg cj' = false end ->
+  jobs_ext a (<[j := cj']> a).
+Proof.
+  intros H k. destruct (decide (k = j)) as [->|Hne].
+  - destruct (a !! j) eqn:E.
+    + exists cj'. rewrite lookup_insert. auto.
+    + intros x. rewrite lookup_insert. congruence.
+  - rewrite lookup_insert_ne by congruence. destruct (a !! k) eqn:E; [eauto|]. intros x Hx. congruence.
+Qed.
+Lemma nodes_ext_insert a n N' :
+  match a !! n with Some N => nmeta N' = nmeta N | None => n_has_node N' = false end ->
+  nodes_ext a (<[n := N']> a).
+Proof.
+  intros H k. destruct (decide (k = n)) as [->|Hne].
+  - destruct (a !! n) eqn:E.
+    + exists N'. rewrite lookup_insert. auto.
+    + intros x. rewrite lookup_insert. congruence.
+  - rewrite lookup_insert_ne by congruence. destruct (a !! k) eqn:E; [eauto|]. intros x Hx. congruence.
+Qed.
+
+Lemma on_n_node n t : on_n n t = true -> t_node t = Some n.
+Proof. unfold on_n. rewrite andb_true_iff, bool_decide_eq_true. tauto. Qed.
+Lemma on_n_other n n' t : t_node t = Some n -> n' <> n -> on_n n' t = false.
+Proof. intros H Hne. unfold on_n. rewrite bool_decide_eq_false_2; [reflexivity|congruence]. Qed.
+Lemma on_n_none n t : t_node t = None -> on_n n t = false.
+Proof. intros H. unfold on_n. rewrite bool_decide_eq_false_2; [reflexivity|congruence]. Qed.
+Lemma on_n_term n t : terminated (t_status t) = true -> on_n n t = false.
+Proof. intros H. unfold on_n. rewrite H. apply andb_false_r. Qed.
+
+Lemma rep_node_default c n :
+  Rep c -> NodeRep (c_heap c) n (default (placeholder n) (c_nodes c !! n)).
+Proof.
+  intros R. destruct (c_nodes c !! n) as [N|] eqn:E; simpl; [exact (rp_nodes c R n N E)|].
+  split; [reflexivity| |discriminate]. simpl. symmetry. apply map_filter_empty_iff.
+  intros i t Ht Hon. cbn [snd] in Hon. destruct (rp_nodes_ex c R i t n Ht Hon) as [x Hx]. congruence.
+Qed.
+
+Section WithEps2.
+Variable eps : Z.
+
+(* the job named by a TaskInfo, as the handlers pass it around *)
+Definition job_arg (jo : option positive) (t : task) : Prop :=
+  match jo with None => t_job t = no_job | Some j => t_job t = j /\ j <> no_job end.
+
+(* addTask of a task the cache does not hold yet *)
+Lemma add_task_rep c jo t :
+  Rep c -> c_heap c !! t_id t = None -> task_wf t -> t_status t <> Binding -> job_arg jo t ->
+  let c' := fst (add_task eps c jo t) in
+  Rep c' /\ snd (add_task eps c jo t) = true /\
+  c_heap c' = <[t_id t := t]> (c_heap c) /\
+  jobs_ext (c_jobs c) (c_jobs c') /\ nodes_ext (c_nodes c) (c_nodes c') /\
+  c' = with_hjn c (c_heap c') (c_jobs c') (c_nodes c').
+Proof.
+  intros R Hn Hw Hb Hj.
+  (* node side *)
+  assert (Hnodes : exists nodes1,
+    add_task_nodes eps c t = (nodes1, true) /\
+    (forall n N, nodes1 !! n = Some N -> NodeRep (<[t_id t := t]> (c_heap c)) n N) /\
+    nodes_ext (c_nodes c) nodes1 /\
+    (forall n, is_Some (c_nodes c !! n) -> is_Some (nodes1 !! n)) /\
+    (forall n, on_n n t = true -> is_Some (nodes1 !! n))).
+  { unfold add_task_nodes. destruct (t_node t) as [n|] eqn:Hnode.
+    - pose proof (rep_node_default c n R) as Hd.
+      set (ni := default (placeholder n) (c_nodes c !! n)) in *.
+      assert (Hmeta : match c_nodes c !! n with Some N => nmeta ni = nmeta N | None => n_has_node ni = false end).
+      { unfold ni. destruct (c_nodes c !! n); reflexivity. }
+      destruct (terminated (t_status t)) eqn:Hterm.
+      + exists (<[n := ni]> (c_nodes c)). split; [reflexivity|]. split; [|split; [|split]].
+        * intros n' N HN. destruct (decide (n' = n)) as [->|Hne].
+          -- rewrite lookup_insert in HN. injection HN as <-. apply node_insert_other; auto. apply on_n_term; exact Hterm.
+          -- rewrite lookup_insert_ne in HN by congruence. apply node_insert_other; auto.
+             ++ exact (rp_nodes c R n' N HN).
+             ++ apply on_n_term; exact Hterm.
+        * apply nodes_ext_insert. exact Hmeta.
+        * intros n' [x Hx]. destruct (decide (n' = n)) as [->|Hne]; [rewrite lookup_insert; eauto|].
+          rewrite lookup_insert_ne by congruence. eauto.
+        * intros n' Hon. rewrite (on_n_term n' t Hterm) in Hon. discriminate.
+      + destruct (node_add_ok eps (c_heap c) n ni t Hd Hn Hnode Hb) as [N' HN'].
+        simpl. rewrite HN'.
+        destruct (node_add_rep eps (c_heap c) n ni t N' t Hd Hn Hnode Hterm Hw HN') as (HR & _ & Hh & Ha).
+        exists (<[n := N']> (c_nodes c)). split; [reflexivity|]. split; [|split; [|split]].
+        * intros n' N HN. destruct (decide (n' = n)) as [->|Hne].
+          -- rewrite lookup_insert in HN. injection HN as <-. exact HR.
+          -- rewrite lookup_insert_ne in HN by congruence. apply node_insert_other; auto.
+             ++ exact (rp_nodes c R n' N HN).
+             ++ apply (on_n_other n); auto.
+        * apply nodes_ext_insert. unfold nmeta in *. rewrite Hh, Ha.
+          destruct (c_nodes c !! n); [exact Hmeta|]. exact Hmeta.
+        * intros n' [x Hx]. destruct (decide (n' = n)) as [->|Hne]; [rewrite lookup_insert; eauto|].
+          rewrite lookup_insert_ne by congruence. eauto.
+        * intros n' Hon. apply on_n_node in Hon. assert (n' = n) as -> by congruence. rewrite lookup_insert. eauto.
+    - exists (c_nodes c). split; [reflexivity|]. split; [|split; [|split]].
+      + intros n N HN. apply node_insert_other; auto; [exact (rp_nodes c R n N HN)|apply on_n_none; exact Hnode].
+      + apply nodes_ext_refl.
+      + auto.
+      + intros n Hon. rewrite (on_n_none n t Hnode) in Hon. discriminate. }
+  destruct Hnodes as (nodes1 & He & HN1 & Hext & Hkeep & Hnew).
+  unfold add_task. rewrite He. cbn [negb].
+  (* job side *)
+  destruct jo as [j|]; simpl in Hj.
+  - destruct Hj as [Hjt Hjn]. cbn [fst snd].
+    set (cj := default (new_cjob j) (c_jobs c !! j)).
+    assert (HJ : JobRep (c_heap c) j (cj_job cj)).
+    { unfold cj. destruct (c_jobs c !! j) as [x|] eqn:E; simpl; [exact (rp_jobs c R j x E)|].
+      split; [reflexivity| |split|split].
+      - intros i. simpl. split; [set_solver|]. intros (u & Hu & Huj).
+        destruct (rp_jobs_ex c R i u Hu) as [y Hy]; [congruence|]. congruence.
+      - intros d. rewrite amt_empty. symmetry. apply tsum_none. intros i u Hu. unfold in_j. rewrite bool_decide_eq_false.
+        intros Huj. destruct (rp_jobs_ex c R i u Hu) as [y Hy]; [congruence|]. congruence.
+      - intros _ i u Hu. unfold in_j. rewrite bool_decide_eq_false.
+        intros Huj. destruct (rp_jobs_ex c R i u Hu) as [y Hy]; [congruence|]. congruence.
+      - intros d. rewrite amt_empty. symmetry. apply tsum_none. intros i u Hu. unfold in_j. rewrite bool_decide_eq_false_2; [reflexivity|].
+        intros Huj. destruct (rp_jobs_ex c R i u Hu) as [y Hy]; [congruence|]. congruence.
+      - intros _ i u Hu. unfold in_j. rewrite bool_decide_eq_false_2; [reflexivity|].
+        intros Huj. destruct (rp_jobs_ex c R i u Hu) as [y Hy]; [congruence|]. congruence. }
+    split; [|split; [reflexivity|split; [reflexivity|split; [|split; [exact Hext|reflexivity]]]]].
+    + split; simpl.
+      * intros i u Hu. destruct (decide (i = t_id t)) as [->|Hne].
+        -- rewrite lookup_insert in Hu. injection Hu as <-. auto.
+        -- rewrite lookup_insert_ne in Hu by congruence. exact (rp_wf c R i u Hu).
+      * rewrite lookup_insert_ne by congruence. exact (rp_nojob c R).
+      * intros j' cj' Hc. destruct (decide (j' = j)) as [->|Hne].
+        -- rewrite lookup_insert in Hc. injection Hc as <-. simpl. apply job_add_rep; auto.
+        -- rewrite lookup_insert_ne in Hc by congruence. apply job_insert_other; auto; [exact (rp_jobs c R j' cj' Hc)|congruence].
+      * intros i u Hu Hnj. destruct (decide (i = t_id t)) as [->|Hne].
+        -- rewrite lookup_insert in Hu. injection Hu as <-. rewrite Hjt, lookup_insert. eauto.
+        -- rewrite lookup_insert_ne in Hu by congruence. destruct (rp_jobs_ex c R i u Hu Hnj) as [x Hx].
+           destruct (decide (t_job u = j)) as [->|Hne2]; [rewrite lookup_insert; eauto|].
+           rewrite lookup_insert_ne by congruence. eauto.
+      * exact HN1.
+      * intros i u n Hu Hon. destruct (decide (i = t_id t)) as [->|Hne].
+        -- rewrite lookup_insert in Hu. injection Hu as <-. exact (Hnew n Hon).
+        -- rewrite lookup_insert_ne in Hu by congruence. apply Hkeep. exact (rp_nodes_ex c R i u n Hu Hon).
+    + simpl. apply jobs_ext_insert. unfold cj. destruct (c_jobs c !! j); reflexivity.
+  - cbn [fst snd].
+    split; [|split; [reflexivity|split; [reflexivity|split; [apply jobs_ext_refl|split; [exact Hext|reflexivity]]]]].
+    split; simpl.
+    + intros i u Hu. destruct (decide (i = t_id t)) as [->|Hne].
+      * rewrite lookup_insert in Hu. injection Hu as <-. auto.
+      * rewrite lookup_insert_ne in Hu by congruence. exact (rp_wf c R i u Hu).
+    + exact (rp_nojob c R).
+    + intros j' cj' Hc. apply job_insert_other; auto; [exact (rp_jobs c R j' cj' Hc)|].
+      rewrite Hj. intros <-. rewrite (rp_nojob c R) in Hc. discriminate.
+    + intros i u Hu Hnj. destruct (decide (i = t_id t)) as [->|Hne].
+      * rewrite lookup_insert in Hu. injection Hu as <-. contradiction.
+      * rewrite lookup_insert_ne in Hu by congruence. exact (rp_jobs_ex c R i u Hu Hnj).
+    + exact HN1.
+    + intros i u n Hu Hon. destruct (decide (i = t_id t)) as [->|Hne].
+      * rewrite lookup_insert in Hu. injection Hu as <-. exact (Hnew n Hon).
+      * rewrite lookup_insert_ne in Hu by congruence. apply Hkeep. exact (rp_nodes_ex c R i u n Hu Hon).
+Qed.
+
+End WithEps2.
+
+(* deleteTask of a task the cache holds, passed as the stored object *)
+Lemma delete_task_rep c jo t :
+  Rep c -> c_heap c !! t_id t = Some t -> job_arg jo t ->
+  let c' := delete_task c jo t in
+  Rep c' /\ c_heap c' = delete (t_id t) (c_heap c) /\
+  jobs_ext (c_jobs c) (c_jobs c') /\ nodes_ext (c_nodes c) (c_nodes c') /\
+  c' = with_hjn c (c_heap c') (c_jobs c') (c_nodes c').
+Proof.
+  intros R Hs Hj.
+  (* job side *)
+  assert (HJ : exists jobs1, delete_task_jobs c jo t = (delete (t_id t) (c_heap c), jobs1) /\
+    (forall j cj, jobs1 !! j = Some cj -> JobRep (delete (t_id t) (c_heap c)) j (cj_job cj)) /\
+    jobs_ext (c_jobs c) jobs1 /\ jobs1 !! no_job = None /\
+    (forall j, is_Some (c_jobs c !! j) -> is_Some (jobs1 !! j))).
+  { unfold delete_task_jobs. destruct jo as [j|]; simpl in Hj.
+    - destruct Hj as [Hjt Hjn].
+      destruct (rp_jobs_ex c R _ t Hs) as [cj Hcj]; [congruence|]. rewrite Hjt in Hcj. rewrite Hcj.
+      pose proof (rp_jobs c R j cj Hcj) as HR.
+      rewrite bool_decide_eq_true_2 by (apply (jr_tasks _ _ _ HR); eauto).
+      rewrite Hs. eexists. split; [reflexivity|]. split; [|split; [|split]].
+      + intros j' cj' Hc. destruct (decide (j' = j)) as [->|Hne].
+        * rewrite lookup_insert in Hc. injection Hc as <-. simpl. apply job_del_rep; auto.
+        * rewrite lookup_insert_ne in Hc by congruence.
+          apply (job_delete_other _ _ _ _ t); auto; [exact (rp_jobs c R j' cj' Hc)|congruence].
+      + apply jobs_ext_insert. rewrite Hcj. reflexivity.
+      + rewrite lookup_insert_ne by congruence. exact (rp_nojob c R).
+      + intros j' [x Hx]. destruct (decide (j' = j)) as [->|Hne]; [rewrite lookup_insert; eauto|].
+        rewrite lookup_insert_ne by congruence. eauto.
+    - eexists. split; [reflexivity|]. split; [|split; [|split]].
+      + intros j' cj' Hc. apply (job_delete_other _ _ _ _ t); auto; [exact (rp_jobs c R j' cj' Hc)|].
+        rewrite Hj. intros <-. rewrite (rp_nojob c R) in Hc. discriminate.
+      + apply jobs_ext_refl.
+      + exact (rp_nojob c R).
+      + auto. }
+  (* node side *)
+  assert (HN : (forall n N, delete_task_nodes c t !! n = Some N -> NodeRep (delete (t_id t) (c_heap c)) n N) /\
+    nodes_ext (c_nodes c) (delete_task_nodes c t) /\
+    (forall n, is_Some (c_nodes c !! n) -> is_Some (delete_task_nodes c t !! n))).
+  { unfold delete_task_nodes. destruct (t_node t) as [n|] eqn:Hnode.
+    - destruct (terminated (t_status t)) eqn:Hterm.
+      + split; [|split; [apply nodes_ext_refl|auto]].
+        intros n' N HN. apply (node_delete_other _ _ _ _ t); auto; [exact (rp_nodes c R n' N HN)|apply on_n_term; exact Hterm].
+      + assert (Hon : on_n n t = true) by (unfold on_n; rewrite Hterm, bool_decide_eq_true_2 by exact Hnode; reflexivity).
+        destruct (rp_nodes_ex c R _ t n Hs Hon) as [ni Hni]. rewrite Hni.
+        destruct (node_remove_rep (c_heap c) n ni (t_id t) t (rp_nodes c R n ni Hni) Hs Hon) as (HR & Hh & Ha).
+        split; [|split].
+        * intros n' N HN. destruct (decide (n' = n)) as [->|Hne].
+          -- rewrite lookup_insert in HN. injection HN as <-. exact HR.
+          -- rewrite lookup_insert_ne in HN by congruence.
+             apply (node_delete_other _ _ _ _ t); auto; [exact (rp_nodes c R n' N HN)|apply (on_n_other n); auto].
+        * apply nodes_ext_insert. rewrite Hni. unfold nmeta. rewrite Hh, Ha. reflexivity.
+        * intros n' [x Hx]. destruct (decide (n' = n)) as [->|Hne]; [rewrite lookup_insert; eauto|].
+          rewrite lookup_insert_ne by congruence. eauto.
+    - split; [|split; [apply nodes_ext_refl|auto]].
+      intros n' N HN. apply (node_delete_other _ _ _ _ t); auto; [exact (rp_nodes c R n' N HN)|apply on_n_none; exact Hnode]. }
+  destruct HJ as (jobs1 & He & HJ1 & Hjext & Hnj & Hjkeep). destruct HN as (HN1 & Hnext & Hnkeep).
+  unfold delete_task. rewrite He. cbn [fst snd]. simpl.
+  split; [|split; [reflexivity|split; [exact Hjext|split; [exact Hnext|reflexivity]]]].
+  split; simpl.
+  - intros i u Hu. rewrite lookup_delete_Some in Hu. exact (rp_wf c R i u (proj2 Hu)).
+  - exact Hnj.
+  - exact HJ1.
+  - intros i u Hu Hnjb. rewrite lookup_delete_Some in Hu. apply Hjkeep. exact (rp_jobs_ex c R i u (proj2 Hu) Hnjb).
+  - exact HN1.
+  - intros i u n Hu Hon. rewrite lookup_delete_Some in Hu. apply Hnkeep. exact (rp_nodes_ex c R i u n (proj2 Hu) Hon).
+Qed.
